@@ -7,7 +7,7 @@ const POW10: [u128; 21] = [
     1_000_000_000_000_000_000, 10_000_000_000_000_000_000, 100_000_000_000_000_000_000,
 ];
 
-//@ prop=C26 tier=quick kind=hold
+//@ prop=C26 tier=experimental kind=hold
 //@ enc=Decimal::try_from_price, Decimal::decimal_multiplier_from_precision, u128::pow, Decimal::to_unit_price
 //@ bound=price < 2^24, every (decimals, token_decimals, precision) in 0..=255 each (valid and invalid triples); exact value = floor(price*10^precision/10^decimals) computed from a constant power table; unwind 7 (u128::pow square-and-multiply on exponents <= 40)
 #[kani::proof]
